@@ -163,7 +163,7 @@ class PackageScan(Unit):
             return
         yield "C09", "package-scan-found-functions", len(out.value) > 100
         for name, findings in out.value:
-            yield "C09", "no-store-into-non-local-state:%s%s" % (name, (" (" + "; ".join(findings[:3]) + ")") if findings else ""), not findings
+            yield "C09", "frame:no-store-into-non-local-state:%s%s" % (name, (" (" + "; ".join(findings[:3]) + ")") if findings else ""), not findings
 
 
 # ------------------------------------------------------------------------------------------ (3) pairs
@@ -248,11 +248,130 @@ class Pairs(Unit):
             (V.compare("==", dec_inst[k], dec_before[k]) is True) or not isinstance(V.compare("==", dec_inst[k], dec_before[k]), bool) for k in dec_before)
         yield "C09", "determinism:equal-arguments-give-equal-bytes", V.bytes_eq(cmd_a2.cdb, cmd_a.cdb)
 
-    def canaries(self, case, a, out, X):
-        if out.kind == "return" and L.CDB[case["A"]].fields:
-            p, f = next(iter(L.CDB[case["A"]].fields.items()))
-            yield "canary:first-field-is-zero", a["A." + p] == 0
 
 
 register(PackageScan())
 register(Pairs())
+
+
+# ------------------------------------------------------------------------------------------ interference search (replay of failed frame obligations)
+#
+# A failed frame obligation says that a call wrote state that outlives it.  That alone is not a violation of the
+# property (a correct per-class cache would do the same), so before a VIOLATION is reported the write is turned
+# into an observable interference: in fresh processes, every command class is observed (constructor CDB for fixed
+# arguments, decode, re-encode) in different orders, after the offending call, and after harmless calls on the
+# base class; a class whose observation differs between two such histories is the counterexample.  No difference
+# found => the frame failure is reported as undecided, not as a violation.
+
+
+def _pattern(width, name):
+    v = 0xA5A5A5A5A5A5A5A5A5A5 & ((1 << width) - 1)
+    if name in ("alloclen", "alloc_len", "tl", "nb", "numblks", "num", "elements", "count"):
+        v &= 0x1FF if name != "count" else 0xFFFF
+    return v
+
+
+def observe_all(order="forward"):
+    import binascii
+
+    classes = sorted(_simple_classes(), key=lambda c: L.layout_key(c))
+    if order == "reverse":
+        classes = classes[::-1]
+    elif order == "subclass-first":
+        classes = sorted(classes, key=lambda c: -len(c.__mro__))
+    obs = {}
+    for cls in classes:
+        key = L.layout_key(cls)
+        lay = L.CDB[key]
+        sets = sets_offering(key)
+        if not sets:
+            continue
+        s, how = sets[0]
+        vals = {p: _pattern(f.width, p) for p, f in lay.fields.items()}
+        try:
+            cmd = cls(C.find_opcode(s, how), **_ctor_kwargs(cls, key, vals, bytearray(8)))
+            cdb = bytes(cmd.cdb)
+            dec = cls.unmarshall_cdb(cmd.cdb)
+            re = bytes(cls.marshall_cdb(dec))
+            obs[key] = [binascii.hexlify(cdb).decode(), {k: (v if isinstance(v, int) else repr(v)) for k, v in dec.items()}, binascii.hexlify(re).decode()]
+        except Exception as ex:  # an exception is an observation too
+            obs[key] = ["raised", type(ex).__name__, str(ex)[:80]]
+    return obs
+
+
+def _observe_in_fresh_process(order, prefix):
+    import json
+    import subprocess
+
+    env = dict(os.environ, PYTHONPATH=os.pathsep.join([VERIF_DIR, os.environ.get("PYSCSI_REPO", "/repo")]), PYTHONDONTWRITEBYTECODE="1")
+    p = subprocess.run([sys.executable, "-B", "-c", "import contracts.isolation as m, sys; m._child(sys.argv[1], sys.argv[2])", order, json.dumps(prefix)],
+                       capture_output=True, text=True, timeout=300, env=env, cwd=VERIF_DIR)
+    for line in p.stdout.splitlines():
+        if line.startswith("OBS"):
+            return json.loads(line[3:])
+    raise RuntimeError("observation process failed: " + (p.stderr or p.stdout)[-400:])
+
+
+VERIF_DIR = os.path.dirname(os.path.dirname(os.path.abspath(__file__)))
+
+
+def _child(order, prefix_json):
+    import json
+    import contextlib
+    import io
+
+    from spec import stubs
+
+    stubs.install()
+    import contracts
+
+    contracts.load_all()
+    prefix = json.loads(prefix_json)
+    with contextlib.redirect_stdout(io.StringIO()):
+        if prefix and prefix.get("kind") == "offending":
+            from pyvc.unit import REGISTRY, run_native
+
+            try:
+                run_native(REGISTRY[prefix["unit"]], prefix["case"], prefix["inputs"], frame=False)  # keep what it wrote
+            except Exception:
+                pass
+        elif prefix and prefix.get("kind") == "base-class":
+            from pyscsi.pyscsi.scsi_command import SCSICommand
+
+            for f in (lambda: SCSICommand.unmarshall_cdb(bytearray(16)), lambda: SCSICommand.marshall_cdb({"opcode": 0x28})):
+                try:
+                    f()
+                except Exception:
+                    pass
+        obs = observe_all(order)
+    print("OBS" + json.dumps(obs))
+
+
+def replay(doc):
+    """custom replay (pyvc.replay): 1 = interference reproduced, 0 = none found"""
+    offending = {"kind": "offending", "unit": doc["unit"], "case": doc["case"], "inputs": doc["inputs"]}
+    histories = [("forward", None), ("reverse", None), ("subclass-first", None), ("forward", offending), ("reverse", offending),
+                 ("forward", {"kind": "base-class"}), ("subclass-first", {"kind": "base-class"})]
+    base = None
+    found = []
+    from concurrent.futures import ThreadPoolExecutor
+
+    with ThreadPoolExecutor(max_workers=len(histories)) as ex:
+        all_obs = list(ex.map(lambda h: _observe_in_fresh_process(h[0], h[1]), histories))
+    for (order, prefix), obs in zip(histories, all_obs):
+        label = "%s order%s" % (order, "" if not prefix else ", after %s" % (prefix["kind"] if prefix["kind"] != "offending" else "the offending call of " + doc["unit"]))
+        if base is None:
+            base, base_label = obs, label
+            continue
+        for k in sorted(base):
+            if k in obs and obs[k] != base[k]:
+                found.append((k, base_label, base[k], label, obs[k]))
+    print("failed frame obligation:", doc["obligation"])
+    if not found:
+        print("NOT REPRODUCED: %d histories (orders, after the offending call, after base-class calls) give identical observations for all command classes" % len(histories))
+        return 0
+    for k, l0, o0, l1, o1 in found[:6]:
+        print("INTERFERENCE: %s observed in [%s]: %s" % (k, l0, str(o0)[:200]))
+        print("              %s observed in [%s]: %s" % (k, l1, str(o1)[:200]))
+    print("REPRODUCED: what %d command class(es) encode/decode depends on other calls made before" % len({f[0] for f in found}))
+    return 1
